@@ -79,9 +79,31 @@ def menu(ctx: Ctx, rng: random.Random) -> tuple[list[dict], dict]:
         for _ in range(2):
             b = code + "".join(rng.choice("0123456789") for _ in range(10))
             add({"op": "iban.new", "t": cps("DE" + gen.check_digits("DE", b) + b), "vb": True}, "DE:" + m)
-    for iban in ("BE68539007547034", "ES9121000418450200051332", "FR1420041010050500013M02606", "NO9386011117947",
-                 "IT60X0542811101000000123456", "PL61109010140000071219812874", "CZ6508000000192000145399"):
-        add({"op": "iban.new", "t": cps(iban), "vb": True}, iban[:2] + ":default")
+    # national algorithms: per country several nationally valid IBANs of DIFFERENT banks / branches
+    # (reference digits from the specification) and an invalid one, validated and generated
+    env = ctx.frozen(banks=False)
+    table = {gen.cc_of(r): r for r in ctx.table(env)}
+    bodies = []
+    for cc in c06.NAT:
+        row = table.get(cc)
+        if row is None or gen.row_classes(row) is None:
+            continue
+        for _ in range(3 if ctx.quick else 5):
+            bodies.append({"cc": cps(cc), "b": cps(gen.bban_for(row, rng))})
+    fixed = c06.nat_gen(ctx, bodies, "c14")
+    for bd, fx in zip(bodies, fixed):
+        cc = text(bd["cc"])
+        b = text(fx["b"])
+        iban = cc + gen.check_digits(cc, b) + b
+        add({"op": "iban.new", "t": cps(iban), "vb": True}, cc + ":default")
+        row = table[cc]
+        if cc in ("ES", "BE", "FR", "IT", "NO", "PL", "EE", "PT", "SI", "FI"):
+            names = ["account_id", "account_type", "account_code", "account_holder_id", "currency_code", "bank_code",
+                     "branch_code", "national_checksum_digits"]
+            part = {n: b[row["pos"][names.index(n)][0]:row["pos"][names.index(n)][1]] for n in names}
+            add({"op": "iban.generate", "cc": cps(cc), "bank": cps(part["bank_code"]),
+                 "branch": cps(part["branch_code"]), "acct": cps(part["account_code"])}, cc + ":default")
+    for iban in ("BE68539007547034", "ES9121000418450200051332", "NO9386011117947", "CZ6508000000192000145399"):
         add({"op": "iban.new", "t": cps(iban[:-1] + ("0" if iban[-1] != "0" else "1")), "vb": True},
             iban[:2] + ":default")
     for op in ({"op": "iban.new", "t": cps("GB33BUKB20201555555555"), "vb": False},
@@ -106,7 +128,8 @@ def build_groups(ctx: Ctx, callsl, by_obj, solo, rng) -> list[dict]:
 
     for obj, idxs in sorted(by_obj.items()):
         pairs = list(itertools.product(idxs, repeat=2)) if obj != "misc" else list(itertools.combinations(idxs, 2))
-        if ctx.quick and len(pairs) > 12:
+        writes = any(k == "W" for i in idxs for k, _, _ in solo[i]["acc"])
+        if ctx.quick and len(pairs) > 12 and not writes:      # objects with shared writes: all pairs, always
             pairs = rng.sample(pairs, 12)
         for p in pairs:
             grp(p)
